@@ -242,6 +242,31 @@ def r3(ctx):
             msg = " ".join(str(c.value) for c in ast.walk(r.exc) if isinstance(c, ast.Constant) and isinstance(c.value, str))
             ctx.check(other.name in msg, fi, f"translator message names the other entry point `{other.name}`",
                       line=r.lineno, role="translator:message", expected=other.name, found=msg[:90])
+        # the translator must be the first thing that looks at the data: an earlier len()/attribute/subscript on it would
+        # raise (or mis-report) for wrong-kind input before the TypeError can be produced
+        cfg_ = ana.cfg(fi)
+        dparam = fi.params[0]
+        for tr, h, r in translators[:1]:
+            first = cfg_.stmt_node.get(id(tr.body[0]))
+            early = []
+            for n_ in cfg_.nodes:
+                if n_.kind in ("stmt", "test") and first is not None and cfg_.dominates(n_, first) and n_.id != first.id:
+                    st_ = n_.ast if n_.kind == "stmt" else n_.ast.test
+                    uses = [x for x in ast.walk(st_) if isinstance(x, ast.Name) and x.id == dparam and isinstance(x.ctx, ast.Load)]
+                    if not uses:
+                        continue
+                    # allowed: data = list(data) (materialise an iterable), logging
+                    if isinstance(st_, ast.Assign) and isinstance(st_.value, ast.Call) and unparse(st_.value.func) in ("list", "tuple") \
+                            and len(st_.value.args) == 1 and isinstance(st_.value.args[0], ast.Name):
+                        continue
+                    if isinstance(st_, ast.Assign) and isinstance(st_.value, ast.ListComp) and isinstance(st_.value.elt, ast.Name):
+                        continue
+                    if isinstance(st_, ast.Expr) and isinstance(st_.value, ast.Call) and ana.is_logging_call(fi, st_.value):
+                        continue
+                    early.append(n_)
+            ctx.check(not early, fi, "nothing inspects the data argument before the translating try (so wrong-kind input always reaches it)",
+                      line=early[0].lineno if early else tr.lineno, role="translator:first",
+                      expected="the stacking call inside the try is the first use of the data", found="; ".join(unparse(e.ast if e.kind == "stmt" else e.ast.test, 50) for e in early))
         for cs in main_calls:
             node = ana.cfg(fi).node_of(cs.node)
             inside = [tr for tr in tries if any(cs.node in list(ast.walk(st)) for st in tr.body) and tr.handlers]
@@ -289,8 +314,8 @@ def r4(ctx):
 @rule("C20", "R6", "CONST", "the donor shortage is detected exactly when no cluster can spare m points (donor accounting of C08)")
 def r6(ctx):
     from . import c08
-    c08.r3(ctx)
-    c08.r6(ctx)
+    ctx.sub(c08.r3)
+    ctx.sub(c08.r6)
 
 
 @rule("C20", "R5", "PURE", "a failed call leaves no module-level state behind")
